@@ -47,7 +47,7 @@ theorem bin_count_and_small_eq_model (rows : List Row) (binArea : Int) (temp : L
   · rintro ⟨t, tb⟩ c ⟨hc, hinv⟩
     subst hc
     simp only [sliceMin_toOption t (tb + 1) (by omega : (0 : Int) ≤ tb + 1), Option.bind_eq_bind]
-    cases (BinObj.sliceMin t (tb + 1)).toOption <;> simp [OptRel]
+    cases (BinObj.sliceMin t (tb + 1)).toOption <;> simp [OptRel, Int.add_comm]
 
 /-- the generated function on a concrete packing: bin 1 holds area 4 + 3, bin 2 area 1; bins have area 9 -/
 example : bin_count_and_small [[1, 1, 0, 0, 2, 2], [2, 2, 0, 0, 1, 1], [3, 1, 2, 0, 3, 3]] 9 [7, 7, 7] = some (9 * 1 + 1) := by
